@@ -314,7 +314,10 @@ fn write_encoding_info<W: Write>(
     writer.write_all(&info.encoded_size.to_be_bytes())?;
 
     let espec_bytes = info.espec.as_bytes();
-    writer.write_all(&[espec_bytes.len() as u8])?;
+    // espec_length is one byte
+    let espec_len =
+        u8::try_from(espec_bytes.len()).map_err(|_| PatchArchiveError::StringTooLong)?;
+    writer.write_all(&[espec_len])?;
     writer.write_all(espec_bytes)?;
 
     Ok(())
